@@ -128,6 +128,13 @@ with parse_list_fuel (fuel : nat) (bs : bytes) {struct fuel} : option (list der)
 
 Definition parse (bs : bytes) : option (der * bytes) := parse_fuel (length bs) bs.
 
+(** A whole input: one tree and nothing after it. *)
+Definition parse_exact (bs : bytes) : option der :=
+  match parse bs with
+  | Some (t, []) => Some t
+  | _ => None
+  end.
+
 Fixpoint der_eqb (a b : der) : bool :=
   match a, b with
   | DPrim t c, DPrim t' c' => (t =? t') && bytes_eqb c c'
